@@ -428,10 +428,10 @@ pub fn read_sync_stub(store: &Store, last_id: Option<&Scru128Id>, limit: Option<
 //@@ rewrite: store.read_sync( ==> ! read_sync_stub(&store,
 //@@ after?: for frame in
     it:
-//@@ before?: { if frame.topic ==
+//@@ before?: { if frame.topic
     invariant st.parts == old(st).parts, it.index@ <= reload_frames().len(),
         st.contexts == reload_ctx(old(st).contexts, reload_frames().take(it.index@ as int)), //# store.new.reload_registers_ctx_frames
-//@@ before_stmt?: if frame.topic ==
+//@@ before_stmt?: if frame.topic
     proof {
         assert(reload_frames().take(it.index@ as int + 1).drop_last() =~= reload_frames().take(it.index@ as int));
         assert(reload_frames().take(it.index@ as int + 1).last() == frame);
